@@ -602,7 +602,7 @@ def coupled_systems(
             outputs.append({"name": "g" + names[i][1:], "size": sz, "c": [draw(_COEF) for _ in range(sz)], "lin": glin})
         formats = ["dense", "dense", "sparse"] + (["operator", "operator"] if operator_jacobians else [])
         disc = {"name": f"D{i}", "jac": draw(st.sampled_from(formats)), "outputs": outputs}
-        if state_form and i not in reads[i] and draw(st.integers(0, 3)) == 0:
+        if state_form and i not in reads[i] and draw(st.integers(0, 2)) == 0:
             disc["state"] = [draw(st.sampled_from([1, 2, -1, 3])) for _ in range(sizes[i])]
         discs.append(disc)
     order = draw(st.permutations(list(range(n))))
